@@ -9,8 +9,8 @@ checks = []
 na = []
 for p in props:
     pid = p["id"]
-    if pid in targets.TARGETS and pid in mm.META:
-        m = mm.META[pid]
+    if pid in targets.TARGETS:
+        m = targets.META[pid]
         checks.append({
             "property_id": pid,
             "quick_cmd": "bin/check %s --tier quick" % pid,
